@@ -66,6 +66,27 @@ NOTES = {
  'C18c': ('missed', 'variables as elements of list literals, fields of object literals and inside nested lists (all 32 subsets of five positions)'),
  'C19c': ('detected', ''),
  'C20c': ('detected', ''),
+ # fourth round: three earlier sites given; asked for an untouched clause / quantifier dimension
+ 'C01d': ('detected', ''),
+ 'C02d': ('missed', 'a union member without a key field (keyless <-> keyed switches) and convergence judged after every settled step of a chained history, not only at its end'),
+ 'C03d': ('detected', ''),
+ 'C04d': ('detected', ''),
+ 'C05d': ('detected', ''),
+ 'C06d': ('missed', 'root fields on different services (sibling sub-plans stitching into one result object) in the race-monitored refresh harness'),
+ 'C07d': ('missed', 'several rows changed by one commit, delivered as one rows event with several (before, after) pairs'),
+ 'C08d': ('detected', ''),
+ 'C09d': ('missed', 'inputs left unmodified by a merge, a second merge of the same objects gives the same schema; enum edits whose value sets are incomparable'),
+ 'C10d': ('detected', ''),
+ 'C11d': ('detected', ''),
+ 'C12d': ('missed', 'both orders of putting a shard limit and a dynamic limit on one handle'),
+ 'C13d': ('detected', ''),
+ 'C14d': ('missed', 'methods with NumParallelInvocations (plain and batch) selected under null objects and lists of nulls'),
+ 'C15d': ('missed', 'a sub-query blocked on its context when a sibling fails (the failure must cancel it)'),
+ 'C16d': ('missed (found, but a stack trace in the panic text made the 5 confirmation re-runs differ: reported as an engine error, exit 2)', 'a list with null entries in front of and between the objects; failure texts are compared with addresses and goroutine numbers masked'),
+ 'C17d': ('detected', ''),
+ 'C18d': ('missed', 'a self-referential input object nested four levels deep with fields after the self-reference, wrong kinds and missing required fields at nested levels'),
+ 'C19d': ('detected', ''),
+ 'C20d': ('detected', ''),
 }
 rows = []
 for name in sorted(os.listdir(ROOT)):
